@@ -93,6 +93,18 @@ theorem inj_of_nodup_map {α β : Type} (f : α → β) (l : List α) (h : (l.ma
     · exact absurd (hab ▸ List.mem_map_of_mem har) h.1
     · exact ih h.2 a har b hbr hab
 
+theorem nodup_map_of_inj_on {α β : Type} (f : α → β) (l : List α) (hnd : l.Nodup)
+    (hinj : ∀ a ∈ l, ∀ b ∈ l, f a = f b → a = b) : (l.map f).Nodup := by
+  induction l with
+  | nil => simp
+  | cons x r ih =>
+    simp only [List.nodup_cons] at hnd
+    simp only [List.map_cons, List.nodup_cons, List.mem_map, not_exists, not_and]
+    refine ⟨?_, ih hnd.2 (fun a ha b hb => hinj a (by simp [ha]) b (by simp [hb]))⟩
+    intro y hy hxy
+    have := hinj y (by simp [hy]) x (by simp) hxy
+    exact hnd.1 (this ▸ hy)
+
 /-! ### what `validPkg` gives -/
 
 structure ValidFacts (pkg : Pkg) : Prop where
@@ -606,55 +618,542 @@ theorem confirm_file_bad (o : Oracle) (pkg : Pkg) (f : String) (hf : f ≠ "") (
 
 /-! ### reading the command line -/
 
-theorem mode_file {fl : Flags} {f : String} {sep : Bool} (h : mode fl = some (.file f sep)) :
+theorem mode_file {pkg : Pkg} {fl : Flags} {f : String} {sep : Bool} (h : mode fl = some (.file f sep)) :
     fl.file = f ∧ f ≠ "" ∧ fl.sep = sep ∧ specifiedOf fl = false ∧ aioOf pkg fl = "" := by
   unfold mode at h
-  by_cases h1 : fl.types.isEmpty = true
-  · by_cases h2 : (fl.file == "") = true
-    · simp [h1, h2] at h
-    · simp only [h1, h2, ↓reduceIte, Option.some.injEq, Mode.file.injEq] at h
-      have hne : fl.file ≠ "" := by simpa using h2
-      refine ⟨h.1, h.1 ▸ hne, h.2, by simp [specifiedOf, h1], ?_⟩
-      simp [aioOf, h2]
-  · by_cases h3 : (fl.types == ["*"]) = true
-    · by_cases h2 : (fl.file == "") = true
-      · simp [h1, h2, h3] at h
-      · simp only [h1, h2, h3, ↓reduceIte, Option.some.injEq, Mode.file.injEq] at h
-        have hne : fl.file ≠ "" := by simpa using h2
-        refine ⟨h.1, h.1 ▸ hne, h.2, by simp [specifiedOf, isStar, h3], ?_⟩
-        simp [aioOf, h2]
-    · by_cases h4 : (fl.types.contains "*" || fl.types.contains "") = true
-      · simp [h1, h3, h4] at h
-      · simp [h1, h3, h4] at h
+  cases h1 : fl.types.isEmpty <;> cases h2 : (fl.file == "") <;> cases h3 : (fl.types == ["*"]) <;>
+    cases h4 : (fl.types.contains "*" || fl.types.contains "") <;> simp [h1, h2, h3, h4] at h
+  all_goals (
+    have hne : fl.file ≠ "" := by simpa using h2
+    refine ⟨h.1, h.1 ▸ hne, h.2, ?_, ?_⟩
+    · simp [specifiedOf, isStar, h1, h3]
+    · simp [aioOf, h2])
 
 theorem mode_star {fl : Flags} {sep : Bool} (h : mode fl = some (.star sep)) :
     fl.file = "" ∧ fl.types = ["*"] ∧ fl.sep = sep := by
   unfold mode at h
-  by_cases h1 : fl.types.isEmpty = true
-  · by_cases h2 : (fl.file == "") = true <;> simp [h1, h2] at h
-  · by_cases h3 : (fl.types == ["*"]) = true
-    · by_cases h2 : (fl.file == "") = true
-      · simp only [h1, h2, h3, ↓reduceIte, Option.some.injEq, Mode.star.injEq] at h
-        exact ⟨by simpa using h2, by simpa using h3, h⟩
-      · simp [h1, h2, h3] at h
-    · by_cases h4 : (fl.types.contains "*" || fl.types.contains "") = true
-      · simp [h1, h3, h4] at h
-      · simp [h1, h3, h4] at h
+  cases h1 : fl.types.isEmpty <;> cases h2 : (fl.file == "") <;> cases h3 : (fl.types == ["*"]) <;>
+    cases h4 : (fl.types.contains "*" || fl.types.contains "") <;> simp [h1, h2, h3, h4] at h
+  all_goals exact ⟨by simpa using h2, by simpa using h3, h⟩
 
 theorem mode_named {fl : Flags} {ns : List String} {file : Option String} (h : mode fl = some (.named ns file)) :
     fl.types = ns ∧ "*" ∉ ns ∧ "" ∉ ns ∧ file = (if fl.file == "" then none else some fl.file) ∧ specifiedOf fl = true := by
   unfold mode at h
-  by_cases h1 : fl.types.isEmpty = true
-  · by_cases h2 : (fl.file == "") = true <;> simp [h1, h2] at h
-  · by_cases h3 : (fl.types == ["*"]) = true
-    · by_cases h2 : (fl.file == "") = true <;> simp [h1, h2, h3] at h
-    · by_cases h4 : (fl.types.contains "*" || fl.types.contains "") = true
-      · simp [h1, h3, h4] at h
-      · simp only [h1, h3, h4, ↓reduceIte, Option.some.injEq, Mode.named.injEq, Bool.false_eq_true] at h
-        simp only [Bool.or_eq_true, List.contains_eq_mem, decide_eq_true_eq, not_or] at h4
-        refine ⟨h.1, h.1 ▸ h4.1, h.1 ▸ h4.2, h.2.symm, ?_⟩
-        simp only [specifiedOf, isStar]
-        simp only [Bool.not_eq_true] at h1 h3
-        simp [h1, h3]
+  cases h1 : fl.types.isEmpty <;> cases h2 : (fl.file == "") <;> cases h3 : (fl.types == ["*"]) <;>
+    cases h4 : (fl.types.contains "*" || fl.types.contains "") <;> simp [h1, h2, h3, h4] at h
+  all_goals (
+    obtain ⟨hc, ht, hf⟩ := h
+    refine ⟨ht, ht ▸ hc.1, ht ▸ hc.2, by simp [h2, ← hf], ?_⟩
+    simp [specifiedOf, isStar, h1, h3])
+
+
+/-! ### running the model -/
+
+theorem finish_eq (m : List (OutName × List String)) (w : Bool) :
+    finish m w = .done m (m.map (·.1)) (w || m.isEmpty) := by simp [finish, mainLoop_eq]
+
+theorem meets_finish (m : List (OutName × List String)) (w : Bool) : meets (finish m w) (.files m) = true := by
+  simp [finish_eq, meets]
+
+theorem endsGo_ne {f : String} (h : endsGo f = true) : f ≠ "" := by
+  intro he; subst he; exact absurd h (by decide)
+
+theorem file_mem {pkg : Pkg} {f : String} (h : (pkg.map File.name).contains f = true) : ∃ g ∈ pkg, g.name = f := by
+  simpa using h
+
+theorem flagCheck_file {pkg : Pkg} {fl : Flags} (v : ValidFacts pkg) (hf : fl.file ≠ "")
+    (hin : (pkg.map File.name).contains fl.file = true) : flagCheck pkg fl = none := by
+  obtain ⟨g, hg, hn⟩ := file_mem hin
+  have hgo : endsGo fl.file = true := hn ▸ v.go g hg
+  have hfe : (fl.file == "") = false := by simpa using hf
+  simp only [flagCheck, hfe, hgo, hin]
+  simp
+
+theorem flagCheck_nofile {pkg : Pkg} {fl : Flags} (hf : fl.file = "") (ht : fl.types ≠ []) : flagCheck pkg fl = none := by
+  cases hts : fl.types with
+  | nil => exact absurd hts ht
+  | cons a r => simp [flagCheck, hf, hts]
+
+theorem run_unspecified (o : Oracle) (cmd : Cmd) (pkg : Pkg) (fl : Flags) (v : ValidFacts pkg)
+    (hsp : specifiedOf fl = false) (hfc : flagCheck pkg fl = none) :
+    run o cmd pkg fl = finish (srcMapOf fl.sep fl.file (aioOf pkg fl) []
+        (((declared pkg).filter (fun ft => inFileB fl.file ft && eligible cmd pkg ft.2)).map nameOf))
+      (cmd == .enum && enumAliasWarn (testedSpecs fl.file pkg)) := by
+  obtain ⟨L, hL, hK⟩ := listed_produced cmd pkg v fl.file
+  simp [run, hfc, confirmTypes, hsp, hL, hK]
+
+/-- `-sep`: one entry per produced type, no overwriting, because the type components are distinct -/
+theorem srcMapOf_sep {pkg : Pkg} (v : ValidFacts pkg) (file aio : String) (fnm : List (String × String))
+    (e : List String) (hnd : e.Nodup) (hmem : ∀ a ∈ e, ∃ ft ∈ declared pkg, ft.2.name = a) :
+    srcMapOf true file aio fnm e = e.map (fun n => (fileName file aio fnm n, [n])) := by
+  simp only [srcMapOf, ↓reduceIte]
+  rw [upserts_nodup _ [] ?_]
+  · simp
+  · simp only [List.nil_append, List.map_map]
+    have hinj := inj_of_nodup_map comp _ v.comps
+    apply nodup_map_of_inj_on _ _ hnd
+    intro a ha b hb hab
+    simp only [Function.comp_def, fileName, OutName.mk.injEq] at hab
+    obtain ⟨fa, hfa, rfl⟩ := hmem a ha
+    obtain ⟨fb, hfb, rfl⟩ := hmem b hb
+    have ha0 : (fa.2.name == "") = false := by simpa using v.nonEmpty fa hfa
+    have hb0 : (fb.2.name == "") = false := by simpa using v.nonEmpty fb hfb
+    simp only [ha0, hb0, Bool.false_eq_true, ↓reduceIte, Option.some.injEq] at hab
+    exact hinj _ (List.mem_map_of_mem (f := fun ft : String × TSpec => ft.2.name) hfa) _
+      (List.mem_map_of_mem (f := fun ft : String × TSpec => ft.2.name) hfb) hab.2
+
+
+theorem eligibleIn_file (cmd : Cmd) (pkg : Pkg) (f : String) (hf : f ≠ "") :
+    eligibleIn cmd pkg (some f) = ((declared pkg).filter (fun ft => inFileB f ft && eligible cmd pkg ft.2)).map nameOf := by
+  have hfe : (f == "") = false := by simpa using hf
+  simp [eligibleIn, inFileB, hfe, nameOf]
+
+theorem eligibleIn_star (cmd : Cmd) (pkg : Pkg) :
+    eligibleIn cmd pkg none = ((declared pkg).filter (fun ft => inFileB "" ft && eligible cmd pkg ft.2)).map nameOf := by
+  simp [eligibleIn, inFileB, nameOf]
+
+theorem eligible_nodup {pkg : Pkg} (v : ValidFacts pkg) (p : String × TSpec → Bool) :
+    (((declared pkg).filter p).map nameOf).Nodup :=
+  List.Nodup.sublist (List.Sublist.map _ List.filter_sublist) v.names
+
+theorem eligible_mem {pkg : Pkg} (p : String × TSpec → Bool) :
+    ∀ a ∈ ((declared pkg).filter p).map nameOf, ∃ ft ∈ declared pkg, ft.2.name = a := by
+  intro a ha
+  simp only [List.mem_map, List.mem_filter] at ha
+  obtain ⟨ft, ⟨hft, _⟩, rfl⟩ := ha
+  exact ⟨ft, hft, rfl⟩
+
+theorem fileName_file (f aio : String) (fnm : List (String × String)) (hf : f ≠ "") (t : String) :
+    fileName f aio fnm t = ⟨stem f, if t == "" then none else some (comp t)⟩ := by
+  have : (f != "") = true := by simpa using hf
+  simp [fileName, this]
+
+theorem fileName_aio (aio : String) (fnm : List (String × String)) (ha : aio ≠ "") (t : String) :
+    fileName "" aio fnm t = ⟨stem aio, if t == "" then none else some (comp t)⟩ := by
+  have : (aio != "") = true := by simpa using ha
+  simp [fileName, this]
+
+/-- `-file=f.go` (with or without `-sep`, with or without `-type=*`) -/
+theorem file_mode_meets (o : Oracle) (cmd : Cmd) (pkg : Pkg) (fl : Flags) (v : ValidFacts pkg) {f : String} {sep : Bool}
+    (hm : mode fl = some (.file f sep)) (hin : (pkg.map File.name).contains f = true) :
+    ∃ s, spec cmd pkg fl = some s ∧ meets (run o cmd pkg fl) s = true := by
+  obtain ⟨hff, hfne, hsep, hsp, haio⟩ := mode_file (pkg := pkg) hm
+  have hfc : flagCheck pkg fl = none := flagCheck_file v (hff ▸ hfne) (hff ▸ hin)
+  rw [run_unspecified o cmd pkg fl v hsp hfc, haio, hff, hsep]
+  simp only [spec, hm, eligibleIn_file cmd pkg f hfne]
+  cases sep with
+  | true =>
+    refine ⟨_, rfl, ?_⟩
+    rw [srcMapOf_sep v _ _ _ _ (eligible_nodup v _) (eligible_mem _)]
+    have : (List.map (fun n => (fileName f "" [] n, [n]))
+        (((declared pkg).filter (fun ft => inFileB f ft && eligible cmd pkg ft.2)).map nameOf)) =
+        (List.map (fun n => ((⟨stem f, some (comp n)⟩ : OutName), [n]))
+        (((declared pkg).filter (fun ft => inFileB f ft && eligible cmd pkg ft.2)).map nameOf)) := by
+      apply List.map_congr_left
+      intro a ha
+      obtain ⟨ft, hft, rfl⟩ := eligible_mem _ a ha
+      have : (ft.2.name == "") = false := by simpa using v.nonEmpty ft hft
+      simp [fileName_file f "" [] hfne, this]
+    rw [this]
+    exact meets_finish _ _
+  | false =>
+    by_cases he : (((declared pkg).filter (fun ft => inFileB f ft && eligible cmd pkg ft.2)).map nameOf).isEmpty = true
+    · refine ⟨_, by simp only [he, ↓reduceIte, Bool.false_eq_true]; rfl, ?_⟩
+      simp only [srcMapOf, he, ↓reduceIte, Bool.false_eq_true]
+      exact meets_finish _ _
+    · refine ⟨_, by simp only [he, ↓reduceIte, Bool.false_eq_true]; rfl, ?_⟩
+      simp only [srcMapOf, he, ↓reduceIte, Bool.false_eq_true, fileName_file f "" [] hfne, beq_self_eq_true]
+      exact meets_finish _ _
+
+
+/-- `-type=*` (with or without `-sep`) -/
+theorem star_mode_meets (o : Oracle) (cmd : Cmd) (pkg : Pkg) (fl : Flags) (v : ValidFacts pkg) {sep : Bool}
+    (hm : mode fl = some (.star sep))
+    (hwf : (eligibleIn cmd pkg none).isEmpty = true ∨
+      ∃ g0, (pkg.find? (fun f => f.comments.any (isDirective fl.cmdline))).map (·.name) = some g0 ∧
+        (sep = true → ∀ n ∈ eligibleIn cmd pkg none, fileOf pkg n = some g0)) :
+    ∃ s, spec cmd pkg fl = some s ∧ meets (run o cmd pkg fl) s = true := by
+  obtain ⟨hff, hts, hsep⟩ := mode_star hm
+  have hsp : specifiedOf fl = false := by simp [specifiedOf, isStar, hts]
+  have hfc : flagCheck pkg fl = none := flagCheck_nofile hff (by simp [hts])
+  have haio : aioOf pkg fl = ((pkg.find? (fun f => f.comments.any (isDirective fl.cmdline))).map (·.name)).getD "" := by
+    simp [aioOf, hff, hts, findAllInOne_eq]
+  rw [run_unspecified o cmd pkg fl v hsp hfc, hff, hsep]
+  simp only [spec, hm]
+  rw [eligibleIn_star] at hwf ⊢
+  rcases hwf with he | ⟨g0, hg, hall⟩
+  · cases sep with
+    | true =>
+      refine ⟨_, rfl, ?_⟩
+      rw [srcMapOf_sep v _ _ _ _ (eligible_nodup v _) (eligible_mem _)]
+      simp only [List.isEmpty_iff] at he
+      simp only [he, List.map_nil]
+      exact meets_finish _ _
+    | false =>
+      refine ⟨_, by simp only [he, ↓reduceIte, Bool.false_eq_true]; rfl, ?_⟩
+      simp only [srcMapOf, he, ↓reduceIte, Bool.false_eq_true]
+      exact meets_finish _ _
+  · have hg0 : g0 ≠ "" := by
+      cases hfd : pkg.find? (fun f => f.comments.any (isDirective fl.cmdline)) with
+      | none => simp [hfd] at hg
+      | some gf =>
+        simp only [hfd, Option.map_some, Option.some.injEq] at hg
+        exact hg ▸ endsGo_ne (v.go gf (List.mem_of_find?_eq_some hfd))
+    rw [haio, hg, Option.getD_some]
+    cases sep with
+    | true =>
+      refine ⟨_, rfl, ?_⟩
+      rw [srcMapOf_sep v _ _ _ _ (eligible_nodup v _) (eligible_mem _)]
+      have : (List.map (fun n => (fileName "" g0 [] n, [n]))
+          (((declared pkg).filter (fun ft => inFileB "" ft && eligible cmd pkg ft.2)).map nameOf)) =
+          (List.map (perType pkg)
+          (((declared pkg).filter (fun ft => inFileB "" ft && eligible cmd pkg ft.2)).map nameOf)) := by
+        apply List.map_congr_left
+        intro a ha
+        have hfo := hall rfl a ha
+        obtain ⟨ft, hft, rfl⟩ := eligible_mem _ a ha
+        have : (ft.2.name == "") = false := by simpa using v.nonEmpty ft hft
+        simp [fileName_aio g0 [] hg0, this, perType, hfo]
+      rw [this]
+      exact meets_finish _ _
+    | false =>
+      by_cases he : (((declared pkg).filter (fun ft => inFileB "" ft && eligible cmd pkg ft.2)).map nameOf).isEmpty = true
+      · refine ⟨_, by simp only [he, ↓reduceIte, Bool.false_eq_true]; rfl, ?_⟩
+        simp only [srcMapOf, he, ↓reduceIte, Bool.false_eq_true]
+        exact meets_finish _ _
+      · refine ⟨_, by simp only [he, ↓reduceIte, Bool.false_eq_true, hg]; rfl, ?_⟩
+        simp only [srcMapOf, he, ↓reduceIte, Bool.false_eq_true, fileName_aio g0 [] hg0, beq_self_eq_true]
+        exact meets_finish _ _
+
+
+/-! ### named types -/
+
+theorem run_specified (o : Oracle) (cmd : Cmd) (pkg : Pkg) (fl : Flags)
+    (hsp : specifiedOf fl = true) (hfc : flagCheck pkg fl = none) :
+    run o cmd pkg fl =
+      match confirm o pkg fl.file fl.types with
+      | .error e => .stop e
+      | .ok m =>
+        match keep cmd pkg true fl.types with
+        | .error e => .stop e
+        | .ok produced => finish (srcMapOf true fl.file (aioOf pkg fl) m produced) false := by
+  simp only [run, hfc, confirmTypes, hsp, ↓reduceIte, Bool.true_or]
+  cases confirm o pkg fl.file fl.types with
+  | error e => rfl
+  | ok m => rfl
+
+theorem getD_eq_iff {g : String} (hg : g ≠ "") (x : Option String) : x.getD "" = g ↔ x = some g := by
+  cases x with
+  | none => simp [Ne.symm hg]
+  | some y => simp
+
+theorem lookup_map_self (F : String → String) (ns : List String) (n : String) (h : n ∈ ns) :
+    (ns.map (fun n => (n, F n))).lookup n = some (F n) := by
+  induction ns with
+  | nil => cases h
+  | cons a r ih =>
+    by_cases hna : n = a
+    · subst hna; simp [List.lookup]
+    · have : (n == a) = false := by simpa using hna
+      rcases List.mem_cons.mp h with rfl | hr
+      · exact absurd rfl hna
+      · simp [List.lookup, this, ih hr]
+
+/-- a good name produces template data -/
+theorem makeData_good (cmd : Cmd) {pkg : Pkg} (v : ValidFacts pkg) (file : Option String) (n : String)
+    (h : good cmd pkg file n = true) : makeData cmd pkg true n = .ok true := by
+  unfold good at h
+  cases hd : findDecl pkg n with
+  | none => simp [hd] at h
+  | some ft =>
+    obtain ⟨f, t⟩ := ft
+    simp only [hd, Bool.and_eq_true] at h
+    obtain ⟨hmem, rfl⟩ := findDecl_some hd
+    have hacc := h.1
+    cases cmd with
+    | new =>
+      simp only [acceptable] at hacc
+      simp [makeData_new_decl v hmem, hacc]
+    | map =>
+      simp only [acceptable, Bool.and_eq_true] at hacc
+      simp [makeData_map_decl v hmem, hacc.1, hacc.2]
+    | rest => exact makeData_rest_decl v hmem true
+    | enum =>
+      simp only [acceptable, Bool.and_eq_true, Bool.not_eq_true'] at hacc
+      have hni : nonIntUnder t = false := by
+        unfold nonIntUnder
+        cases hu : t.under with
+        | none => rfl
+        | some k => simp only [hu] at hacc; simp [hacc.1.2]
+      simp [makeData_enum_decl v hmem, hacc.1.1, hacc.2, hni]
+
+theorem good_fileOf {cmd : Cmd} {pkg : Pkg} {g n : String} (h : good cmd pkg (some g) n = true) : fileOf pkg n = some g := by
+  unfold good at h
+  unfold fileOf
+  cases hd : findDecl pkg n with
+  | none => simp [hd] at h
+  | some ft => obtain ⟨f, t⟩ := ft; simp only [hd, Bool.and_eq_true, beq_iff_eq] at h; simp [h.2]
+
+theorem good_declared {cmd : Cmd} {pkg : Pkg} {file : Option String} {n : String} (h : good cmd pkg file n = true) :
+    ∃ ft ∈ declared pkg, ft.2.name = n := by
+  unfold good at h
+  cases hd : findDecl pkg n with
+  | none => simp [hd] at h
+  | some ft => obtain ⟨f, t⟩ := ft; exact ⟨(f, t), (findDecl_some hd).1, (findDecl_some hd).2⟩
+
+theorem aioOf_named {pkg : Pkg} {fl : Flags} (h : "*" ∉ fl.types) : aioOf pkg fl = "" := by
+  have : fl.types.contains "*" = false := by simpa using h
+  unfold aioOf; rw [this]; simp
+
+/-- `-type=A,B` (optionally with `-file`), every name good -/
+theorem named_good_meets (o : Oracle) (cmd : Cmd) (pkg : Pkg) (fl : Flags) (v : ValidFacts pkg)
+    {ns : List String} {file : Option String} (hm : mode fl = some (.named ns file))
+    (hnd : ns.Nodup) (hfile : ∀ g, file = some g → (pkg.map File.name).contains g = true)
+    (hc : ∀ n ∈ ns, candsOK pkg n = true) (hgood : ∀ n ∈ ns, good cmd pkg file n = true) :
+    ∃ s, spec cmd pkg fl = some s ∧ meets (run o cmd pkg fl) s = true := by
+  obtain ⟨hts, hstar, hempty, hfl, hsp⟩ := mode_named hm
+  subst hts
+  have hbad : (fl.types.filter (fun n => !good cmd pkg file n)).isEmpty = true := by
+    simp only [List.isEmpty_iff, List.filter_eq_nil_iff, Bool.not_eq_true', Bool.not_eq_false]
+    exact hgood
+  refine ⟨.files (fl.types.map (perType pkg)), by simp [spec, hm, hbad], ?_⟩
+  have haio : aioOf pkg fl = "" := aioOf_named hstar
+  have hkeep : keep cmd pkg true fl.types = .ok fl.types := by
+    rw [keep_ok cmd pkg true (fun _ => true) fl.types (fun n hn => makeData_good cmd v file n (hgood n hn))]
+    simp
+  have hmem : ∀ a ∈ fl.types, ∃ ft ∈ declared pkg, ft.2.name = a := fun a ha => good_declared (hgood a ha)
+  have hne : ∀ a ∈ fl.types, (a == "") = false := fun a ha => by
+    simp only [beq_eq_false_iff_ne, ne_eq]; intro he; exact hempty (he ▸ ha)
+  have htne : fl.types ≠ [] := by intro he; simp [he, specifiedOf] at hsp
+  by_cases hf : fl.file = ""
+  · have hfc : flagCheck pkg fl = none := flagCheck_nofile hf htne
+    rw [run_specified o cmd pkg fl hsp hfc, hf, confirm_nofile o pkg _ hc, hkeep, haio]
+    simp only
+    rw [srcMapOf_sep v _ _ _ _ hnd hmem]
+    have : List.map (fun n => (fileName "" "" (fl.types.map (fun n => (n, (fileOf pkg n).getD ""))) n, [n])) fl.types
+        = fl.types.map (perType pkg) := by
+      apply List.map_congr_left
+      intro a ha
+      simp [fileName, lookup_map_self (fun n => (fileOf pkg n).getD "") fl.types a ha, hne a ha, perType]
+    rw [this]
+    exact meets_finish _ _
+  · have hfe : (fl.file == "") = false := by simpa using hf
+    have hfs : file = some fl.file := by simp [hfl, hfe]
+    have hin := hfile _ hfs
+    have hfc : flagCheck pkg fl = none := flagCheck_file v hf hin
+    have hall : ∀ n ∈ fl.types, (fileOf pkg n).getD "" = fl.file := fun n hn => by
+      rw [good_fileOf (hfs ▸ hgood n hn)]; rfl
+    rw [run_specified o cmd pkg fl hsp hfc, confirm_file_ok o pkg fl.file hf _ hc hall, hkeep, haio]
+    simp only
+    rw [srcMapOf_sep v _ _ _ _ hnd hmem]
+    have : List.map (fun n => (fileName fl.file "" [] n, [n])) fl.types = fl.types.map (perType pkg) := by
+      apply List.map_congr_left
+      intro a ha
+      simp [fileName_file fl.file "" [] hf, hne a ha, perType, hall a ha]
+    rw [this]
+    exact meets_finish _ _
+
+
+/-! ### a bad name in the list -/
+
+theorem makeData_ok_or_fatal (cmd : Cmd) (hc : cmd ≠ .rest) {pkg : Pkg} (v : ValidFacts pkg) (sp : Bool) (n : String) :
+    ∀ e, makeData cmd pkg sp n = .error e → e = .fatal := by
+  intro e he
+  cases hd : findDecl pkg n with
+  | none =>
+    cases cmd with
+    | new => rw [makeData_new_none v hd] at he; cases he; rfl
+    | map => rw [makeData_map_none v hd] at he; cases he; rfl
+    | enum => rw [makeData_enum_none v hd] at he; cases he
+    | rest => exact absurd rfl hc
+  | some ft =>
+    obtain ⟨f, t⟩ := ft
+    obtain ⟨hmem, rfl⟩ := findDecl_some hd
+    cases cmd with
+    | new => rw [makeData_new_decl v hmem] at he; split at he <;> cases he; rfl
+    | map => rw [makeData_map_decl v hmem] at he; (repeat' split at he) <;> cases he <;> rfl
+    | enum => rw [makeData_enum_decl v hmem] at he; (repeat' split at he) <;> cases he <;> rfl
+    | rest => exact absurd rfl hc
+
+/-- not good, although declared in the named file (if any): the declaration is of the wrong kind, or missing -/
+theorem bad_cases {cmd : Cmd} {pkg : Pkg} {file : Option String} {n : String}
+    (hb : good cmd pkg file n = false) (hfm : ∀ g, file = some g → fileOf pkg n = some g) :
+    findDecl pkg n = none ∨ ∃ f t, findDecl pkg n = some (f, t) ∧ acceptable cmd pkg t = false := by
+  unfold good at hb
+  cases hd : findDecl pkg n with
+  | none => exact Or.inl rfl
+  | some ft =>
+    obtain ⟨f, t⟩ := ft
+    refine Or.inr ⟨f, t, rfl, ?_⟩
+    simp only [hd] at hb
+    cases file with
+    | none => simpa using hb
+    | some g =>
+      have := hfm g rfl
+      simp only [fileOf, hd, Option.map_some, Option.some.injEq] at this
+      simpa [this] using hb
+
+theorem bad_fatal_new {pkg : Pkg} (v : ValidFacts pkg) {file : Option String} {n : String}
+    (hb : good .new pkg file n = false) (hfm : ∀ g, file = some g → fileOf pkg n = some g) :
+    makeData .new pkg true n = .error .fatal := by
+  rcases bad_cases hb hfm with hd | ⟨f, t, hd, hacc⟩
+  · exact makeData_new_none v hd true
+  · obtain ⟨hmem, rfl⟩ := findDecl_some hd
+    simp only [acceptable] at hacc
+    simp [makeData_new_decl v hmem, hacc]
+
+theorem bad_fatal_map {pkg : Pkg} (v : ValidFacts pkg) {file : Option String} {n : String}
+    (hb : good .map pkg file n = false) (hfm : ∀ g, file = some g → fileOf pkg n = some g) :
+    makeData .map pkg true n = .error .fatal := by
+  rcases bad_cases hb hfm with hd | ⟨f, t, hd, hacc⟩
+  · exact makeData_map_none v hd true
+  · obtain ⟨hmem, rfl⟩ := findDecl_some hd
+    simp only [acceptable] at hacc
+    rw [makeData_map_decl v hmem]
+    by_cases hs : (t.shape == Shape.struct) = true
+    · simp only [hs, Bool.true_and] at hacc
+      simp [hs, hacc]
+    · simp [hs]
+
+theorem enumFatal_fatal {pkg : Pkg} (v : ValidFacts pkg) {n : String} (h : enumFatal pkg n = true) :
+    makeData .enum pkg true n = .error .fatal := by
+  unfold enumFatal at h
+  cases hd : findDecl pkg n with
+  | none => simp [hd] at h
+  | some ft =>
+    obtain ⟨f, t⟩ := ft
+    obtain ⟨hmem, rfl⟩ := findDecl_some hd
+    simp only [hd, Bool.or_eq_true, Bool.and_eq_true, Bool.not_eq_true'] at h
+    rw [makeData_enum_decl v hmem]
+    rcases h with ha | ⟨hc, hn⟩
+    · simp [ha]
+    · have : nonIntUnder t = true := hn
+      cases t.alias <;> simp [hc, this]
+
+theorem bad_skip_enum {pkg : Pkg} (v : ValidFacts pkg) {file : Option String} {n : String}
+    (hb : good .enum pkg file n = false) (hfm : ∀ g, file = some g → fileOf pkg n = some g)
+    (hnf : enumFatal pkg n = false) : makeData .enum pkg true n = .ok false := by
+  rcases bad_cases hb hfm with hd | ⟨f, t, hd, hacc⟩
+  · exact makeData_enum_none v hd true
+  · obtain ⟨hmem, rfl⟩ := findDecl_some hd
+    unfold enumFatal at hnf
+    simp only [hd, Bool.or_eq_false_iff] at hnf
+    rw [makeData_enum_decl v hmem]
+    simp only [hnf.1, Bool.false_eq_true, ↓reduceIte]
+    by_cases hc : (goConsts t.name pkg).isEmpty = true
+    · simp [hc]
+    · simp only [hc, Bool.false_eq_true, ↓reduceIte]
+      have hc' : (goConsts t.name pkg).isEmpty = false := by simpa using hc
+      have hni : nonIntUnder t = false := by simpa [hc'] using hnf.2
+      obtain ⟨f', t', hd', hu⟩ := under_of_goConsts v (n := t.name) (by simpa using hc)
+      rw [hd] at hd'
+      simp only [Option.some.injEq, Prod.mk.injEq] at hd'
+      obtain ⟨_, rfl⟩ := hd'
+      -- not acceptable although the underlying kind is an integer kind and constants exist: impossible
+      exfalso
+      simp only [acceptable, hnf.1, hc', Bool.not_false, Bool.and_true, Bool.true_and] at hacc
+      unfold nonIntUnder at hni
+      cases hk : t.under with
+      | none => simp [hk] at hu
+      | some k => simp [hk] at hacc hni; simp [hacc] at hni
+
+
+theorem meets_stop_fatal (bad : List String) : meets (.stop .fatal) (.rejected bad) = true := by simp [meets]
+
+theorem meets_nothing (bad : List String) : meets (finish [] false) (.rejected bad) = true := by
+  simp [finish_eq, meets, holdsBad]
+
+/-- `-type=…` with a missing / wrong-kind name, outside the two finding regions -/
+theorem named_bad_meets (o : Oracle) (cmd : Cmd) (pkg : Pkg) (fl : Flags) (v : ValidFacts pkg)
+    {ns : List String} {file : Option String} (hm : mode fl = some (.named ns file))
+    (hfile : ∀ g, file = some g → (pkg.map File.name).contains g = true)
+    (hc : ∀ n ∈ ns, candsOK pkg n = true)
+    (hbad : ∃ n ∈ ns, good cmd pkg file n = false)
+    (hrest : cmd = .rest → ∃ g, file = some g ∧ ∃ n ∈ ns, fileOf pkg n ≠ some g)
+    (henum : cmd = .enum → (∃ g, file = some g ∧ ∃ n ∈ ns, fileOf pkg n ≠ some g) ∨
+        (∃ n ∈ ns, enumFatal pkg n = true) ∨ (∀ n ∈ ns, good cmd pkg file n = false)) :
+    ∃ s, spec cmd pkg fl = some s ∧ meets (run o cmd pkg fl) s = true := by
+  obtain ⟨hts, hstar, hempty, hfl, hsp⟩ := mode_named hm
+  subst hts
+  have hbne : (fl.types.filter (fun n => !good cmd pkg file n)).isEmpty = false := by
+    obtain ⟨n, hn, hg⟩ := hbad
+    cases hl : fl.types.filter (fun n => !good cmd pkg file n) with
+    | nil =>
+      have : n ∈ fl.types.filter (fun n => !good cmd pkg file n) := by simp [List.mem_filter, hn, hg]
+      rw [hl] at this; cases this
+    | cons a r => rfl
+  refine ⟨.rejected (fl.types.filter (fun n => !good cmd pkg file n)), by simp [spec, hm, hbne], ?_⟩
+  have htne : fl.types ≠ [] := by intro he; simp [he, specifiedOf] at hsp
+  have haio : aioOf pkg fl = "" := aioOf_named hstar
+  by_cases hmis : ∃ g, file = some g ∧ ∃ n ∈ fl.types, fileOf pkg n ≠ some g
+  · -- "type … is not in the specified file"
+    obtain ⟨g, hg, n, hn, hne⟩ := hmis
+    have hfe : (fl.file == "") = false := by
+      cases hfe : (fl.file == "") with
+      | false => rfl
+      | true => simp [hfl, hfe] at hg
+    have hf : fl.file ≠ "" := by simpa using hfe
+    have hgf : g = fl.file := by simp [hfl, hfe] at hg; exact hg.symm
+    subst hgf
+    have hfc : flagCheck pkg fl = none := flagCheck_file v hf (hfile _ hg)
+    rw [run_specified o cmd pkg fl hsp hfc,
+      confirm_file_bad o pkg fl.file hf _ hc ⟨n, hn, fun he => hne ((getD_eq_iff hf _).mp he)⟩]
+    exact meets_stop_fatal _
+  · -- every name is declared in the named file (if any): confirmTypes passes
+    have hfm : ∀ n ∈ fl.types, ∀ g, file = some g → fileOf pkg n = some g := by
+      intro n hn g hg
+      by_cases he : fileOf pkg n = some g
+      · exact he
+      · exact absurd ⟨g, hg, n, hn, he⟩ hmis
+    have hconf : ∃ m, flagCheck pkg fl = none ∧ confirm o pkg fl.file fl.types = .ok m := by
+      by_cases hf : fl.file = ""
+      · exact ⟨_, flagCheck_nofile hf htne, hf ▸ confirm_nofile o pkg _ hc⟩
+      · have hfe : (fl.file == "") = false := by simpa using hf
+        have hfs : file = some fl.file := by simp [hfl, hfe]
+        exact ⟨_, flagCheck_file v hf (hfile _ hfs),
+          confirm_file_ok o pkg fl.file hf _ hc (fun n hn => (getD_eq_iff hf _).mpr (hfm n hn _ hfs))⟩
+    obtain ⟨m, hfc, hcm⟩ := hconf
+    rw [run_specified o cmd pkg fl hsp hfc, hcm]
+    simp only
+    have hfatal : keep cmd pkg true fl.types = .error .fatal → meets
+        (match keep cmd pkg true fl.types with
+          | .error e => Outcome.stop e
+          | .ok produced => finish (srcMapOf true fl.file (aioOf pkg fl) m produced) false)
+        (.rejected (fl.types.filter (fun n => !good cmd pkg file n))) = true := by
+      intro hk; rw [hk]; exact meets_stop_fatal _
+    cases cmd with
+    | new =>
+      apply hfatal
+      apply keep_fatal _ _ _ _ (fun n _ => makeData_ok_or_fatal .new (by simp) v true n)
+      obtain ⟨n, hn, hg⟩ := hbad
+      exact ⟨n, hn, bad_fatal_new v hg (hfm n hn)⟩
+    | map =>
+      apply hfatal
+      apply keep_fatal _ _ _ _ (fun n _ => makeData_ok_or_fatal .map (by simp) v true n)
+      obtain ⟨n, hn, hg⟩ := hbad
+      exact ⟨n, hn, bad_fatal_map v hg (hfm n hn)⟩
+    | rest => exact absurd (hrest rfl) hmis
+    | enum =>
+      rcases henum rfl with h1 | ⟨n, hn, hf⟩ | hall
+      · exact absurd h1 hmis
+      · apply hfatal
+        apply keep_fatal _ _ _ _ (fun n _ => makeData_ok_or_fatal .enum (by simp) v true n)
+        exact ⟨n, hn, enumFatal_fatal v hf⟩
+      · by_cases hef : ∃ n ∈ fl.types, enumFatal pkg n = true
+        · obtain ⟨n, hn, hf⟩ := hef
+          apply hfatal
+          apply keep_fatal _ _ _ _ (fun n _ => makeData_ok_or_fatal .enum (by simp) v true n)
+          exact ⟨n, hn, enumFatal_fatal v hf⟩
+        · have hk : keep .enum pkg true fl.types = .ok [] := by
+            rw [keep_ok .enum pkg true (fun _ => false)]
+            · simp
+            · intro n hn
+              apply bad_skip_enum v (hall n hn) (hfm n hn)
+              cases hx : enumFatal pkg n with
+              | false => rfl
+              | true => exact absurd ⟨n, hn, hx⟩ hef
+          rw [hk]
+          simp only [srcMapOf, List.map_nil, upserts, ↓reduceIte]
+          exact meets_nothing _
 
 end ShootVerif.Cli
